@@ -33,6 +33,8 @@ ASSUMPTIONS = [
     'stays under the 10000-embedding cap',
 ]
 CONFIG = {
+    'extra_variants': [('rdkit-new-stereo-perception',
+                        [{'RDK_USE_LEGACY_STEREO_PERCEPTION': '0'}])],
     'shards': {'quick': 16, 'thorough': 16},
     'min_nontrivial': {'quick': 8000, 'thorough': 200000},
     'timeout': {'quick': 1200, 'thorough': 14400},
@@ -238,6 +240,20 @@ def run_shard(ctx):
                         ctx.count('tuples_beyond_256_heavy_atoms')
                         check_tuple(ctx, name, tup)
                     i += 1
+            # components each well below a size at which something might
+            # saturate (match caps, index widths), their mixture above it:
+            # every pair / triple of chains of 10-60 carbons
+            sizes = (10, 20, 25, 30, 40, 60)
+            mids = [(('C' * a_), ('C' * b_ + 'O')) for a_ in sizes
+                    for b_ in sizes if a_ <= b_]
+            mids += [('C' * 20, 'C' * 20, 'CC(C)' + 'C' * 17),
+                     ('C' * 15 + 'O', 'C' * 15, 'C' * 15, 'C' * 15)]
+            for tup in mids:
+                if ctx.mine(i) and (ctx.tier == 'thorough' or
+                                    (i // 16 + ctx.seed) % 2 == 0):
+                    ctx.count('tuples_of_mid_sized_chains')
+                    check_tuple(ctx, name, tup)
+                i += 1
         r = ctx.sub_rng('c04tri', name)
         for _ in range(60 if ctx.tier == 'quick' else 2000):
             t = tuple(r.choice(pl) for _ in range(3))
